@@ -407,10 +407,15 @@ def render_c15(vec):
     own = {m: maps[m]["own"] for m in mods}
     imps = {m: [(p, t) for p, t in maps[m]["imports"]] for m in mods}
 
-    def pf(u, t):              # prefix module u uses for module t ("" = local)
-        if u == t:
+    belongs = {m: maps[m].get("belongs", "") for m in mods}      # submodule -> its module
+
+    def mod_of(u):
+        return belongs[u] or u
+
+    def pf(u, t):              # prefix unit u uses for the module of unit t ("" = same module)
+        if mod_of(u) == mod_of(t):
             return ""
-        return next(p for p, x in imps[u] if x == t) + ":"
+        return next(p for p, x in imps[u] if x == mod_of(t)) + ":"
 
     # per module: lists of (text, tag) lines; tag = (stmt, role) or None
     typedefs = {m: [] for m in mods}
@@ -469,8 +474,12 @@ def render_c15(vec):
             raise Infra("unknown place " + place)
     out, lines_of = [], {}
     for m in mods:
-        L = [("module %s {" % m, None), (' namespace "urn:%s";' % m, None), (" prefix %s;" % own[m], None)]
+        if belongs[m]:
+            L = [("submodule %s {" % m, None), (" belongs-to %s { prefix %s; }" % (belongs[m], own[m]), None)]
+        else:
+            L = [("module %s {" % m, None), (' namespace "urn:%s";' % m, None), (" prefix %s;" % own[m], None)]
         L += [(" import %s { prefix %s; }" % (t, p), None) for p, t in imps[m]]
+        L += [(" include %s;" % x, None) for x in mods if belongs[x] == m]
         L += typedefs[m] + groupings[m]
         L += [(" container t%s {" % m, None), ("  leaf l0 { type string; }", None)] + body[m] + [(" }", None)]
         L += augments[m] + [("}", None)]
@@ -490,7 +499,7 @@ def run_c15(ctx):
     if "Invariant NoHazard is violated" not in hz["out"]:
         raise Infra("self test failed: no reachable state has a statement sitting in a module that binds its prefix differently")
     g = ctx.tlc("PrefixScopeGen", "PrefixScopeGen.cfg", workers=12, timeout=1500, heap="10g",
-                consts={"NSample": 60 if quick else 0, "NRand": 150 if quick else 1500}, extra=["-seed", str(ctx.seed)])
+                consts={"NSample": 40 if quick else 0, "NRand": 120 if quick else 1500}, extra=["-seed", str(ctx.seed)])
     vecs = []
     for f in sorted(os.listdir(g["dir"])):
         if re.match(r"pvec_.*\.ndjson$", f):
@@ -540,7 +549,7 @@ def run_c15(ctx):
     ctx.traces += runs
     for f in fails:
         v, c, o = vecs[f["id"]], cases[f["id"]], res[f["id"]]
-        sig = dict(site="compile", what=f["what"], kind=f["kind"], place=f["place"], detail=f["detail"])
+        sig = dict(site="compile", what=f["what"], kind=f["kind"], place=f["place"], detail=f["detail"], written_in=f["unit"])
         ctx.disagree(sig, f"{f['what']} ({f['detail']}) for a {f['kind']} statement placed {f['place']}",
                      dict(kind="trace", failure=f, modules=c["mods"], spec=dict(verdict=v["verdict"], stmts=v["stmts"], badStmts=v["badStmts"]),
                           observed=dict(runs=[dict(verdict=r["verdict"], err=r["err"][:400]) for r in o["runs"]], xps=o["xps"]),
